@@ -250,7 +250,7 @@ func c13OuterCancel(c *Ctx, ro *c13Roles) {
 					}
 				}
 			case *ssa.Range:
-				if c13IsField(x, v.X, ro.ocTable) && c13RangeInvokes(ro, v) {
+				if c13IsField(x, v.X, ro.ocTable) && (c13RangeInvokes(ro, v) || c13RangeYields(ro, x, v)) {
 					return st | c13ocFanout
 				}
 			case *ssa.MapUpdate:
@@ -322,6 +322,15 @@ func c13OuterCancel(c *Ctx, ro *c13Roles) {
 							return st | c13ocNoCtx
 						}
 					}
+				}
+			}
+			return st
+		},
+		RangeFunc: func(x *C13Ctx, call ssa.CallInstruction, ctor *ssa.Call, yield *ssa.Function, st uint64) uint64 {
+			// for v := range maps.Values(table) { go v() } and its relatives
+			for _, a := range ctor.Call.Args {
+				if c13FromCollection(x, a, ro.ocTable, 0) && c13YieldInvokes(ro, yield) {
+					return st | c13ocFanout
 				}
 			}
 			return st
@@ -443,6 +452,42 @@ func c13FirstOr(s []string, d string) string {
 // a spawned closure) every ranged value, or looks every ranged key up in the
 // same table and invokes that.
 func c13RangeInvokes(ro *c13Roles, rg *ssa.Range) bool {
+	flows := c13InvocationFlow(ro)
+	for _, r := range refs(rg) {
+		nx, ok := r.(*ssa.Next)
+		if !ok {
+			continue
+		}
+		for _, r2 := range refs(nx) {
+			ex, ok := r2.(*ssa.Extract)
+			if !ok || ex.Index == 0 {
+				continue
+			}
+			if flows(ex, 0) {
+				return true
+			}
+		}
+	}
+	return false
+}
+
+// c13YieldInvokes: the body of a range-over-func loop (its yield function)
+// invokes the element it is given (or looks the key it is given up in the
+// reader table and invokes that).
+func c13YieldInvokes(ro *c13Roles, yield *ssa.Function) bool {
+	flows := c13InvocationFlow(ro)
+	for _, pa := range yield.Params {
+		if flows(pa, 0) {
+			return true
+		}
+	}
+	return false
+}
+
+// c13InvocationFlow returns the relation "v is invoked (go / call / defer),
+// directly, through a variable, a spawned closure, a gathered collection or a
+// look-up in the reader table".
+func c13InvocationFlow(ro *c13Roles) func(v ssa.Value, depth int) bool {
 	var flows func(v ssa.Value, depth int) bool
 	visiting := map[ssa.Value]bool{}
 	flows = func(v ssa.Value, depth int) bool {
@@ -530,22 +575,7 @@ func c13RangeInvokes(ro *c13Roles, rg *ssa.Range) bool {
 		}
 		return false
 	}
-	for _, r := range refs(rg) {
-		nx, ok := r.(*ssa.Next)
-		if !ok {
-			continue
-		}
-		for _, r2 := range refs(nx) {
-			ex, ok := r2.(*ssa.Extract)
-			if !ok || ex.Index == 0 {
-				continue
-			}
-			if flows(ex, 0) {
-				return true
-			}
-		}
-	}
-	return false
+	return flows
 }
 
 // c13FromField: v is (a copy of) the value of field target: a load of it, or
@@ -1163,4 +1193,67 @@ func c13ReceivesFrom(p *Prog, fn *ssa.Function, binds []ssa.Value, key string) b
 		},
 	})
 	return okAll && n > 0 && len(ex.Incomplete) == 0
+}
+
+// c13RangeYields: the loop over rg sits in an iterator of the module (a
+// function handed a yield function) and hands every ranged value to the yield
+// function, which on this path is a loop body that invokes what it is given.
+func c13RangeYields(ro *c13Roles, x *C13Ctx, rg *ssa.Range) bool {
+	for _, r := range refs(rg) {
+		nx, ok := r.(*ssa.Next)
+		if !ok {
+			continue
+		}
+		for _, r2 := range refs(nx) {
+			ex, ok := r2.(*ssa.Extract)
+			if !ok || ex.Index == 0 {
+				continue
+			}
+			for _, r3 := range refs(ex) {
+				call, ok := r3.(*ssa.Call)
+				if !ok || call.Call.IsInvoke() {
+					continue
+				}
+				isArg := false
+				for _, a := range call.Call.Args {
+					if a == ssa.Value(ex) {
+						isArg = true
+					}
+				}
+				if !isArg {
+					continue
+				}
+				if fn := x.FuncTarget(call.Call.Value); fn != nil && c13YieldInvokes(ro, fn) {
+					return true
+				}
+			}
+		}
+	}
+	return false
+}
+
+// c13FromCollection: v is the table field, or a collection / iterator the
+// standard library (maps, slices) derived from it (maps.Values(t),
+// slices.Collect(maps.Values(t)), slices.Sorted(maps.Keys(t)) ...).
+func c13FromCollection(x *C13Ctx, v ssa.Value, table FieldID, depth int) bool {
+	if depth > 4 {
+		return false
+	}
+	if c13IsField(x, v, table) {
+		return true
+	}
+	call, ok := c13StripConv(x.Resolve(v)).(*ssa.Call)
+	if !ok {
+		return false
+	}
+	obj := calleeObj(call)
+	if obj == nil || obj.Pkg() == nil || (obj.Pkg().Path() != "maps" && obj.Pkg().Path() != "slices") {
+		return false
+	}
+	for _, a := range call.Call.Args {
+		if c13FromCollection(x, a, table, depth+1) {
+			return true
+		}
+	}
+	return false
 }
